@@ -70,8 +70,8 @@ Definition skey (p : str) : pkey := norm_aux true (split_slash p) [].
 Definition kpath (k : pkey) : str := SLASH :: join_slash k.
 
 (* ------------------------------------------------------------------ (1) the server *)
-Inductive snode := NDir | NFile (id : nat).
-Record server := mkSrv { s_tree : list (pkey * snode); s_objs : list bytes }.
+Inductive snode := SfDir | SfFile (id : nat).
+Record server := mkSfSrv { sv_tree : list (pkey * snode); sv_objs : list bytes }.
 
 Definition eNotExist := E KNotExist.
 Definition eFail := E KOther.          (* SSH_FX_FAILURE with some message *)
@@ -79,31 +79,31 @@ Definition eEOF := E KEOF.
 Definition eClosed := E KClosed.       (* os.ErrClosed, client side *)
 Definition eInvalid := E KInvalid.     (* os.ErrInvalid, client side *)
 
-Inductive srv_res (A : Type) := SOk (a : A) | SErr (e : err).
-Arguments SOk {A} a. Arguments SErr {A} e.
+Inductive srv_res (A : Type) := SfOk (a : A) | SfErr (e : err).
+Arguments SfOk {A} a. Arguments SfErr {A} e.
 
 Definition obj_content (objs : list bytes) (id : nat) : bytes := nth id objs [].
 
 (* root.lfetch (= fetch: there are no symlinks) *)
 Definition lfetch (t : list (pkey * snode)) (k : pkey) : option snode :=
-  match k with [] => Some NDir | _ => kget k t end.
+  match k with [] => Some SfDir | _ => kget k t end.
 
 (* root.canonName: the parent must exist and be a directory (the name itself is unchanged
    because there are no symlinks) *)
 Definition canon_err (t : list (pkey * snode)) (k : pkey) : option err :=
   match lfetch t (removelast k) with
   | None => Some eNotExist
-  | Some (NFile _) => Some eFail          (* ENOTDIR *)
-  | Some NDir => None
+  | Some (SfFile _) => Some eFail          (* ENOTDIR *)
+  | Some SfDir => None
   end.
 
 (* root.putfile *)
 Definition putfile (t : list (pkey * snode)) (k : pkey) (n : snode) : srv_res (list (pkey * snode)) :=
   match canon_err t k with
-  | Some e => SErr e
+  | Some e => SfErr e
   | None => match lfetch t k with
-            | Some _ => SErr eFail        (* os.ErrExist *)
-            | None => SOk (kset k n t)
+            | Some _ => SfErr eFail        (* os.ErrExist *)
+            | None => SfOk (kset k n t)
             end
   end.
 
@@ -124,20 +124,20 @@ Definition srv_readat (c : bytes) (off n : Z) : bytes :=
 
 (* root.openfile *)
 Definition srv_openfile (s : server) (k : pkey) (creat excl trunc : bool) : srv_res (server * nat) :=
-  match lfetch (s_tree s) k with
+  match lfetch (sv_tree s) k with
   | None =>
       if creat then
-        match putfile (s_tree s) k (NFile (length (s_objs s))) with
-        | SErr e => SErr e
-        | SOk t' => SOk (mkSrv t' (s_objs s ++ [[]]), length (s_objs s))
+        match putfile (sv_tree s) k (SfFile (length (sv_objs s))) with
+        | SfErr e => SfErr e
+        | SfOk t' => SfOk (mkSfSrv t' (sv_objs s ++ [[]]), length (sv_objs s))
         end
-      else SErr eNotExist
+      else SfErr eNotExist
   | Some n =>
-      if creat && excl then SErr eFail    (* os.ErrExist *)
+      if creat && excl then SfErr eFail    (* os.ErrExist *)
       else match n with
-           | NDir => SErr eFail           (* os.ErrInvalid *)
-           | NFile id =>
-               SOk (if trunc then mkSrv (s_tree s) (list_set id (srv_truncate (obj_content (s_objs s) id) 0) (s_objs s))
+           | SfDir => SfErr eFail           (* os.ErrInvalid *)
+           | SfFile id =>
+               SfOk (if trunc then mkSfSrv (sv_tree s) (list_set id (srv_truncate (obj_content (sv_objs s) id) 0) (sv_objs s))
                     else s, id)
            end
   end.
@@ -145,19 +145,19 @@ Definition srv_openfile (s : server) (k : pkey) (creat excl trunc : bool) : srv_
 (* Filecmd "Setstat" (also reached by FSETSTAT, through the PATH of the handle) *)
 Definition srv_setstat (s : server) (k : pkey) (size : option Z) : srv_res server :=
   match srv_openfile s k false false false with
-  | SErr e => SErr e
-  | SOk (s1, id) =>
+  | SfErr e => SfErr e
+  | SfOk (s1, id) =>
       match size with
-      | None => SOk s1
-      | Some n => if n <? 0 then SErr eFail   (* not modelled: the in-memory server panics *)
-                  else SOk (mkSrv (s_tree s1) (list_set id (srv_truncate (obj_content (s_objs s1) id) n) (s_objs s1)))
+      | None => SfOk s1
+      | Some n => if n <? 0 then SfErr eFail   (* not modelled: the in-memory server panics *)
+                  else SfOk (mkSfSrv (sv_tree s1) (list_set id (srv_truncate (obj_content (sv_objs s1) id) n) (sv_objs s1)))
       end
   end.
 
 Definition srv_mkdir (s : server) (k : pkey) : srv_res server :=
-  match putfile (s_tree s) k NDir with
-  | SErr e => SErr e
-  | SOk t' => SOk (mkSrv t' (s_objs s))
+  match putfile (sv_tree s) k SfDir with
+  | SfErr e => SfErr e
+  | SfOk t' => SfOk (mkSfSrv t' (sv_objs s))
   end.
 
 Definition has_child (t : list (pkey * snode)) (k : pkey) : bool :=
@@ -165,11 +165,11 @@ Definition has_child (t : list (pkey * snode)) (k : pkey) : bool :=
 
 (* root.rmdir *)
 Definition srv_rmdir (s : server) (k : pkey) : srv_res server :=
-  match lfetch (s_tree s) k with
-  | None => SErr eNotExist
-  | Some (NFile _) => SErr eFail          (* ENOTDIR *)
-  | Some NDir => if has_child (s_tree s) k then SErr eFail
-                 else SOk (mkSrv (kdel k (s_tree s)) (s_objs s))
+  match lfetch (sv_tree s) k with
+  | None => SfErr eNotExist
+  | Some (SfFile _) => SfErr eFail          (* ENOTDIR *)
+  | Some SfDir => if has_child (sv_tree s) k then SfErr eFail
+                 else SfOk (mkSfSrv (kdel k (sv_tree s)) (sv_objs s))
   end.
 
 (* root.exists *)
@@ -184,19 +184,19 @@ Definition rename_key (p t k : pkey) : pkey :=
 
 (* Filecmd "Rename" + root.rename *)
 Definition srv_rename (s : server) (p t : pkey) : srv_res server :=
-  if srv_exists (s_tree s) t then SErr eFail             (* os.ErrExist *)
-  else match lfetch (s_tree s) p with
-       | None => SErr eNotExist
+  if srv_exists (sv_tree s) t then SfErr eFail             (* os.ErrExist *)
+  else match lfetch (sv_tree s) p with
+       | None => SfErr eNotExist
        | Some _ =>
          match p with
-         | [] => SErr eFail                               (* not modelled: renaming "/" *)
+         | [] => SfErr eFail                               (* not modelled: renaming "/" *)
          | _ =>
-           match canon_err (s_tree s) t with
-           | Some e => SErr e
+           match canon_err (sv_tree s) t with
+           | Some e => SfErr e
            | None =>
              match kstrip p t with
-             | Some _ => SErr eFail                       (* not modelled: into its own subtree *)
-             | None => SOk (mkSrv (map (fun '(k, v) => (rename_key p t k, v)) (s_tree s)) (s_objs s))
+             | Some _ => SfErr eFail                       (* not modelled: into its own subtree *)
+             | None => SfOk (mkSfSrv (map (fun '(k, v) => (rename_key p t k, v)) (sv_tree s)) (sv_objs s))
              end
            end
          end
@@ -204,10 +204,10 @@ Definition srv_rename (s : server) (p t : pkey) : srv_res server :=
 
 (* Filelist "Stat" / Lstat: (is directory, size) *)
 Definition srv_stat (s : server) (k : pkey) : option (bool * Z) :=
-  match lfetch (s_tree s) k with
+  match lfetch (sv_tree s) k with
   | None => None
-  | Some NDir => Some (true, 0)
-  | Some (NFile id) => Some (false, zlen (obj_content (s_objs s) id))
+  | Some SfDir => Some (true, 0)
+  | Some (SfFile id) => Some (false, zlen (obj_content (sv_objs s) id))
   end.
 
 Definition info_of (name : str) (d : bool) (size : Z) : finfo :=
@@ -217,36 +217,36 @@ Definition finfo_lt (a b : finfo) : bool := bltb (fi_name a) (fi_name b).
 
 (* root.readdir *)
 Definition srv_readdir (s : server) (k : pkey) : srv_res (list finfo) :=
-  match lfetch (s_tree s) k with
-  | None => SErr eNotExist
-  | Some (NFile _) => SErr eFail          (* ENOTDIR *)
-  | Some NDir =>
-      SOk (sort_by finfo_lt
+  match lfetch (sv_tree s) k with
+  | None => SfErr eNotExist
+  | Some (SfFile _) => SfErr eFail          (* ENOTDIR *)
+  | Some SfDir =>
+      SfOk (sort_by finfo_lt
              (flat_map (fun '(k', v) =>
                 match k' with
                 | [] => []
                 | _ => if keqb (removelast k') k then
                          [match v with
-                          | NDir => info_of (last k' []) true 0
-                          | NFile id => info_of (last k' []) false (zlen (obj_content (s_objs s) id))
+                          | SfDir => info_of (last k' []) true 0
+                          | SfFile id => info_of (last k' []) false (zlen (obj_content (sv_objs s) id))
                           end]
                        else []
-                end) (s_tree s)))
+                end) (sv_tree s)))
   end.
 
 (* ------------------------------------------------------------------ (2) the pkg/sftp client *)
 Definition max_packet : nat := 32768.
 
-Inductive fmode := MRW | MRO | MWO.
+Inductive fmode := SfRW | SfRO | SfWO.
 (* *sftp.File plus what the server keeps for its handle (path, object, kind of handle), plus
    whether the sftpfs.File around it carries the client *)
-Record sfile := mkSF { sf_name : str; sf_key : pkey; sf_obj : nat; sf_mode : fmode;
+Record sfile := mkSfFile { sf_name : str; sf_key : pkey; sf_obj : nat; sf_mode : fmode;
                        sf_off : Z; sf_closed : bool; sf_client : bool }.
 
 Definition sf_set_off (f : sfile) (o : Z) : sfile :=
-  mkSF (sf_name f) (sf_key f) (sf_obj f) (sf_mode f) o (sf_closed f) (sf_client f).
+  mkSfFile (sf_name f) (sf_key f) (sf_obj f) (sf_mode f) o (sf_closed f) (sf_client f).
 Definition sf_set_closed (f : sfile) : sfile :=
-  mkSF (sf_name f) (sf_key f) (sf_obj f) (sf_mode f) (sf_off f) true (sf_client f).
+  mkSfFile (sf_name f) (sf_key f) (sf_obj f) (sf_mode f) (sf_off f) true (sf_client f).
 
 Definition has_flag (f bit : Z) : bool := negb (Z.land f bit =? 0).
 
@@ -262,20 +262,20 @@ Definition c_open (s : server) (name : str) (flag : Z) (client : bool) : srv_res
   let k := skey name in
   let go (m : fmode) :=
     match srv_openfile s k creat excl trunc with
-    | SErr e => SErr e
-    | SOk (s', id) => SOk (s', mkSF name k id m 0 false client)
+    | SfErr e => SfErr e
+    | SfOk (s', id) => SfOk (s', mkSfFile name k id m 0 false client)
     end in
   if wr || app || creat || trunc then
-    (if rd then go MRW else if wr then go MWO else SErr eFail)
-  else if rd then go MRO
-  else SErr eFail.                        (* "bad file flags" *)
+    (if rd then go SfRW else if wr then go SfWO else SfErr eFail)
+  else if rd then go SfRO
+  else SfErr eFail.                        (* "bad file flags" *)
 
 (* File.Read / File.ReadAt with a buffer of n bytes: bytes delivered, error *)
 Definition c_readat (c : bytes) (f : sfile) (n off : Z) : bytes * option err :=
   if sf_closed f then ([], Some eClosed)
   else if n <=? 0 then ([], None)
   else match sf_mode f with
-       | MWO => ([], Some eFail)          (* not modelled, see the header *)
+       | SfWO => ([], Some eFail)          (* not modelled, see the header *)
        | _ => if off <? 0 then ([], Some eFail)
               else let b := srv_readat c off n in
                    (b, if zlen b <? n then Some eEOF else None)
@@ -295,13 +295,13 @@ Fixpoint write_chunks (fuel : nat) (c : bytes) (off : Z) (b : bytes) : bytes :=
 Definition c_writeat (c : bytes) (f : sfile) (b : bytes) (off : Z) : option bytes * Z * option err :=
   if sf_closed f then (None, 0, Some eClosed)
   else match sf_mode f with
-       | MRO => (None, 0, Some (if zlen c <=? off then eEOF else eFail))
+       | SfRO => (None, 0, Some (if zlen c <=? off then eEOF else eFail))
        | _ => if off <? 0 then (None, 0, Some eFail)
               else (Some (write_chunks (S (length b)) c off b), zlen b, None)
        end.
 
 (* ------------------------------------------------------------------ (3) sftpfs *)
-Record sftp_state := mkSt { st_srv : server; st_slots : list (option sfile) }.
+Record sftp_state := mkSfSt { sst_srv : server; sst_slots : list (option sfile) }.
 
 Fixpoint sf_slot_set (i : nat) (f : sfile) (l : list (option sfile)) : list (option sfile) :=
   match i, l with
@@ -314,10 +314,10 @@ Definition sf_slot_get (l : list (option sfile)) (i : nat) : option sfile :=
   match nth_error l i with Some (Some f) => Some f | _ => None end.
 
 Definition sf_bind (s : server) (slots : list (option sfile)) (slot : option nat) (f : sfile) : sftp_state :=
-  mkSt s (match slot with Some i => sf_slot_set i f slots | None => slots end).
+  mkSfSt s (match slot with Some i => sf_slot_set i f slots | None => slots end).
 
 Definition sf_upd_obj (s : server) (id : nat) (c : option bytes) : server :=
-  match c with Some c' => mkSrv (s_tree s) (list_set id c' (s_objs s)) | None => s end.
+  match c with Some c' => mkSfSrv (sv_tree s) (list_set id c' (sv_objs s)) | None => s end.
 
 (* Fs.Stat / Fs.Lstat *)
 Definition fs_stat (s : server) (name : str) : res :=
@@ -328,13 +328,13 @@ Definition fs_stat (s : server) (name : str) : res :=
 
 (* Fs.Chmod / Chown / Chtimes *)
 Definition fs_setattr (s : server) (name : str) : res :=
-  match srv_setstat s (skey name) None with SErr e => RErr e | SOk _ => ROk end.
+  match srv_setstat s (skey name) None with SfErr e => RErr e | SfOk _ => ROk end.
 
 (* Fs.Mkdir: client.Mkdir, then client.Chmod *)
 Definition fs_mkdir (s : server) (name : str) : server * res :=
   match srv_mkdir s (skey name) with
-  | SErr e => (s, RErr e)
-  | SOk s1 => (s1, fs_setattr s1 name)
+  | SfErr e => (s, RErr e)
+  | SfOk s1 => (s1, fs_setattr s1 name)
   end.
 
 (* the prefix MkdirAll recurses on: path[0:j-1] when j > 1 *)
@@ -379,20 +379,20 @@ Fixpoint fs_mkdirall (fixed : bool) (fuel : nat) (s : server) (path : str) : ser
 (* Fs.Remove = Client.Remove: SSH_FXP_REMOVE, on SSH_FX_FAILURE SSH_FXP_RMDIR *)
 Definition fs_remove (s : server) (name : str) : server * res :=
   let k := skey name in
-  match lfetch (s_tree s) k with
+  match lfetch (sv_tree s) k with
   | None => (s, RErr eNotExist)
-  | Some (NFile _) => (mkSrv (kdel k (s_tree s)) (s_objs s), ROk)
-  | Some NDir => match srv_rmdir s k with SErr e => (s, RErr e) | SOk s' => (s', ROk) end
+  | Some (SfFile _) => (mkSfSrv (kdel k (sv_tree s)) (sv_objs s), ROk)
+  | Some SfDir => match srv_rmdir s k with SfErr e => (s, RErr e) | SfOk s' => (s', ROk) end
   end.
 
 Definition fs_rename (s : server) (a b : str) : server * res :=
-  match srv_rename s (skey a) (skey b) with SErr e => (s, RErr e) | SOk s' => (s', ROk) end.
+  match srv_rename s (skey a) (skey b) with SfErr e => (s, RErr e) | SfOk s' => (s', ROk) end.
 
 (* File.Readdir *)
 Definition sff_readdir (s : server) (f : sfile) (count : Z) : srv_res (list finfo) :=
   match srv_readdir s (skey (sf_name f)) with
-  | SErr e => SErr e
-  | SOk l => SOk (if (0 <? count) && (count <? zlen l) then firstn (Z.to_nat count) l else l)
+  | SfErr e => SfErr e
+  | SfOk l => SfOk (if (0 <? count) && (count <? zlen l) then firstn (Z.to_nat count) l else l)
   end.
 
 (* Client.Create: os.O_RDWR|os.O_CREATE|os.O_TRUNC *)
@@ -400,70 +400,70 @@ Definition create_flags : Z := Z.lor o_rdwr (Z.lor o_create o_trunc).
 
 Definition sftp_step (st : sftp_state) (it : option nat * op) : sftp_state * res :=
   let '(slot, o) := it in
-  let s := st_srv st in
-  let slots := st_slots st in
+  let s := sst_srv st in
+  let slots := sst_slots st in
   let with_h (i : nat) (k : sfile -> sftp_state * res) : sftp_state * res :=
     match sf_slot_get slots i with Some f => k f | None => (st, RNoSlot) end in
-  let seth (i : nat) (f : sfile) (s' : server) := mkSt s' (list_set i (Some f) slots) in
+  let seth (i : nat) (f : sfile) (s' : server) := mkSfSt s' (list_set i (Some f) slots) in
   match o with
   | Create p =>
       match c_open s p create_flags true with
-      | SErr e => (st, RErr e)
-      | SOk (s', f) => (sf_bind s' slots slot f, RHandle 0)
+      | SfErr e => (st, RErr e)
+      | SfOk (s', f) => (sf_bind s' slots slot f, RHandle 0)
       end
   | Open p =>
       match c_open s p o_rdonly true with
-      | SErr e => (st, RErr e)
-      | SOk (s', f) => (sf_bind s' slots slot f, RHandle 0)
+      | SfErr e => (st, RErr e)
+      | SfOk (s', f) => (sf_bind s' slots slot f, RHandle 0)
       end
   | OpenFile p flag perm =>
       match c_open s p flag false with
-      | SErr e => (st, RErr e)
-      | SOk (s', f) =>
+      | SfErr e => (st, RErr e)
+      | SfOk (s', f) =>
           (* sshfsFile.Chmod(perm): FSETSTAT through the path of the new handle *)
           match srv_setstat s' (sf_key f) None with
-          | SErr e => (mkSt s' slots, RErr e)
-          | SOk s'' => (sf_bind s'' slots slot f, RHandle 0)
+          | SfErr e => (mkSfSt s' slots, RErr e)
+          | SfOk s'' => (sf_bind s'' slots slot f, RHandle 0)
           end
       end
-  | Mkdir p perm => let '(s', r) := fs_mkdir s p in (mkSt s' slots, r)
-  | MkdirAll p perm => let '(s', r) := fs_mkdirall false (S (length p)) s p in (mkSt s' slots, r)
-  | Remove p => let '(s', r) := fs_remove s p in (mkSt s' slots, r)
+  | Mkdir p perm => let '(s', r) := fs_mkdir s p in (mkSfSt s' slots, r)
+  | MkdirAll p perm => let '(s', r) := fs_mkdirall false (S (length p)) s p in (mkSfSt s' slots, r)
+  | Remove p => let '(s', r) := fs_remove s p in (mkSfSt s' slots, r)
   | RemoveAll p => (st, ROk)
-  | Rename p q => let '(s', r) := fs_rename s p q in (mkSt s' slots, r)
+  | Rename p q => let '(s', r) := fs_rename s p q in (mkSfSt s' slots, r)
   | Stat p => (st, fs_stat s p)
   | Chmod p _ | Chown p _ _ | Chtimes p _ => (st, fs_setattr s p)
   | HRead i n => with_h i (fun f =>
-      let '(b, e) := c_readat (obj_content (s_objs s) (sf_obj f)) f n (sf_off f) in
+      let '(b, e) := c_readat (obj_content (sv_objs s) (sf_obj f)) f n (sf_off f) in
       (seth i (sf_set_off f (sf_off f + zlen b)) s, RData b e))
   | HReadAt i n off => with_h i (fun f =>
-      let '(b, e) := c_readat (obj_content (s_objs s) (sf_obj f)) f n off in (st, RData b e))
+      let '(b, e) := c_readat (obj_content (sv_objs s) (sf_obj f)) f n off in (st, RData b e))
   | HWrite i b | HWriteString i b => with_h i (fun f =>
-      let '(c', n, e) := c_writeat (obj_content (s_objs s) (sf_obj f)) f b (sf_off f) in
+      let '(c', n, e) := c_writeat (obj_content (sv_objs s) (sf_obj f)) f b (sf_off f) in
       (seth i (sf_set_off f (sf_off f + n)) (sf_upd_obj s (sf_obj f) c'), RCount n e))
   | HWriteAt i b off => with_h i (fun f => (st, RCount 0 None))      (* file.go: `return 0, nil` *)
   | HSeek i off wh => with_h i (fun f =>
       if sf_closed f then (st, RPos 0 (Some eClosed))
       else
         let target :=
-          if wh =? 0 then SOk off
-          else if wh =? 1 then SOk (off + sf_off f)
+          if wh =? 0 then SfOk off
+          else if wh =? 1 then SfOk (off + sf_off f)
           else if wh =? 2 then
             match srv_stat s (sf_key f) with
-            | None => SErr eNotExist
-            | Some (_, size) => SOk (off + size)
+            | None => SfErr eNotExist
+            | Some (_, size) => SfOk (off + size)
             end
-          else SErr eFail in
+          else SfErr eFail in
         match target with
-        | SErr e => (st, RPos (sf_off f) (Some e))
-        | SOk t => if t <? 0 then (st, RPos (sf_off f) (Some eInvalid))
+        | SfErr e => (st, RPos (sf_off f) (Some e))
+        | SfOk t => if t <? 0 then (st, RPos (sf_off f) (Some eInvalid))
                    else (seth i (sf_set_off f t) s, RPos t None)
         end)
   | HTruncate i n => with_h i (fun f =>
       if sf_closed f then (st, RErr eClosed)
       else match srv_setstat s (sf_key f) (Some n) with
-           | SErr e => (st, RErr e)
-           | SOk s' => (mkSt s' slots, ROk)
+           | SfErr e => (st, RErr e)
+           | SfOk s' => (mkSfSt s' slots, ROk)
            end)
   | HClose i => with_h i (fun f =>
       if sf_closed f then (st, RErr eClosed) else (seth i (sf_set_closed f) s, ROk))
@@ -478,35 +478,35 @@ Definition sftp_step (st : sftp_state) (it : option nat * op) : sftp_state * res
   | HReaddir i n => with_h i (fun f =>
       if sf_client f then
         match sff_readdir s f n with
-        | SErr e => (st, RInfos [] (Some e))
-        | SOk l => (st, RInfos l None)
+        | SfErr e => (st, RInfos [] (Some e))
+        | SfOk l => (st, RInfos l None)
         end
       else (st, RPanic))
   | HReaddirnames i n => with_h i (fun f =>
       if sf_client f then
         match sff_readdir s f n with
-        | SErr e => (st, RNames [] (Some e))
-        | SOk l => (st, RNames (map fi_name l) None)
+        | SfErr e => (st, RNames [] (Some e))
+        | SfOk l => (st, RNames (map fi_name l) None)
         end
       else (st, RPanic))
   end.
 
 Definition sitem := (option nat * op)%type.
 
-Definition sftp_init : sftp_state := mkSt (mkSrv [] []) [].
+Definition sftp_init : sftp_state := mkSfSt (mkSfSrv [] []) [].
 
 (* what an independent observer of the server sees: every path with its kind and obj_content *)
 Definition sftp_snap_lt (a b : str * option bytes) : bool := bltb (fst a) (fst b).
 Definition sftp_snapshot (s : server) : list (str * option bytes) :=
   sort_by sftp_snap_lt
-    (map (fun '(k, v) => (kpath k, match v with NDir => None | NFile id => Some (obj_content (s_objs s) id) end))
-         (s_tree s)).
+    (map (fun '(k, v) => (kpath k, match v with SfDir => None | SfFile id => Some (obj_content (sv_objs s) id) end))
+         (sv_tree s)).
 
 (* sftp_run, keeping after every sftp_step the result and the observer's view *)
 Fixpoint sftp_run_obs (st : sftp_state) (items : list sitem) : list (res * list (str * option bytes)) :=
   match items with
   | [] => []
-  | it :: r => let '(st1, x) := sftp_step st it in (x, sftp_snapshot (st_srv st1)) :: sftp_run_obs st1 r
+  | it :: r => let '(st1, x) := sftp_step st it in (x, sftp_snapshot (sst_srv st1)) :: sftp_run_obs st1 r
   end.
 
 Fixpoint sftp_run (st : sftp_state) (items : list sitem) : sftp_state * list res :=
